@@ -1,9 +1,9 @@
 (* ContextP.v — slice ctx (property C09): lemmas and proofs about the model Context.v.
 
    Main result: failed_restores — from a quiescent state (nothing pending, every implemented module compiled
-   against the current features, no to_compile mark) a failing operation that does not take the latest-revision
-   flag from an existing module and does not change the feature bits of an existing module leaves the
-   observable state as it was. The proof follows the phases of an operation:
+   against the current features, no to_compile mark) in which exactly the newest revision of every name carries
+   LYS_MOD_LATEST_REV (invariant LJ, proved for every reachable state: reachable_LJ) a failing operation that does
+   not change the feature bits of an existing module leaves the observable state as it was. The proof follows the phases of an operation:
      parse (lys_parse_in / lys_parse_load)       invariant PI  : old modules only change their flag bits, new
                                                                   modules are appended and recorded in creating
      implement, dep sets, compile                invariant QI  : old modules keep frame, implemented ones stay
@@ -1561,36 +1561,6 @@ Proof.
   - destruct Hin as [Hin|Hin]; [left; exact Hin|right; apply IH; assumption].
 Qed.
 
-Definition rm_step (a : state * list (list key)) (k : key) : state * list (list key) :=
-  (with_mods (rm_mod k (mods (fst a))) (fst a), rm_from_depsets k (snd a)).
-
-Lemma remove_created olds : forall ks news t dss,
-  mods t = olds ++ news -> Permutation ks (keys news) -> NoDup (keys (olds ++ news)) ->
-  let r := fold_left rm_step ks (t, dss) in
-  fst r = with_mods olds t /\ (forall x, ~ In x ks -> In x (concat dss) -> In x (concat (snd r))).
-Proof.
-  induction ks as [|k ks IH]; intros news t dss Hm Hp Hnd; cbn [fold_left].
-  - cbn [fst snd]. apply Permutation_nil in Hp. destruct news; [|discriminate]. rewrite app_nil_r in Hm.
-    split; [|intros x _ H; exact H]. rewrite <- Hm. destruct t; reflexivity.
-  - assert (Hk : In k (keys news)) by (apply (Permutation_in _ Hp); left; reflexivity).
-    assert (Hko : ~ In k (keys olds)).
-    { unfold keys in *. rewrite map_app in Hnd. apply (NoDup_app_not_l _ _ k Hnd Hk). }
-    destruct (rm_mod_app_new olds news k Hko Hk) as [news' [E P]].
-    assert (Es : rm_step (t, dss) k = (with_mods (olds ++ news') t, rm_from_depsets k dss))
-      by (unfold rm_step; cbn [fst snd]; rewrite Hm, E; reflexivity).
-    rewrite Es.
-    assert (Hp' : Permutation ks (keys news')).
-    { apply (Permutation_cons_inv (a := k)). eapply perm_trans; [exact Hp|apply Permutation_sym; exact P]. }
-    assert (Hnd' : NoDup (keys (olds ++ news'))).
-    { unfold keys in *. rewrite map_app in *.
-      assert (P2 : Permutation (map mkey olds ++ k :: map mkey news') (map mkey olds ++ map mkey news))
-        by (apply Permutation_app_head; exact P).
-      apply Permutation_sym in P2. pose proof (Permutation_NoDup P2 Hnd) as H. apply NoDup_remove_1 in H. exact H. }
-    destruct (IH news' (with_mods (olds ++ news') t) (rm_from_depsets k dss) eq_refl Hp' Hnd') as [A B].
-    split; [rewrite A; reflexivity|].
-    intros x Hx Hin. apply B; [intros H; apply Hx; right; exact H|].
-    apply rm_from_depsets_keeps; [intros Heq; apply Hx; left; symmetry; exact Heq|exact Hin].
-Qed.
 
 (* ------------------------------------------------------------------------------------------------ *)
 (* observable equality                                                                              *)
@@ -1656,7 +1626,7 @@ Proof.
 Qed.
 
 (* ------------------------------------------------------------------------------------------------ *)
-(* lys_unres_glob_revert                                                                            *)
+(* helpers for lys_unres_glob_revert                                                                *)
 (* ------------------------------------------------------------------------------------------------ *)
 Definition PE {X} (f : modl -> X) (s t : state) : Prop :=
   Forall2 (fun m m' => mkey m' = mkey m /\ f m' = f m) (mods s) (olds_of s t).
@@ -1697,120 +1667,6 @@ Proof.
   - split; [left; reflexivity|exact H].
   - eapply Forall2_impl; [|exact IH]. cbn. intros a b [H1 H2]. split; [right; exact H1|exact H2].
 Qed.
-
-Lemma revert_restores s imp dss mid :
-  wf_state s -> QI s imp (concat dss) mid -> FE s mid -> LE s mid ->
-  implementing mid = imp -> creating mid = keys (news_of s mid) -> (imp = [] -> dss = []) ->
-  Forall2 frel (mods s) (mods (erase (revert mid dss))).
-Proof.
-  intros W Q F L Himp Hcr Hnil.
-  pose proof (qi_nodup _ _ _ _ Q) as Hnd. pose proof (qi_len _ _ _ _ Q) as Hlen.
-  unfold revert. rewrite Himp.
-  change (fun s0 k => upd_s k (fun m => set_tc false (set_comp None (set_impl false m))) s0)
-    with (fun s0 k => upd_s k unimpl s0).
-  rewrite (fold_upd_mods unimpl) by reflexivity.
-  set (h1 := fun m => if kmem (mkey m) imp then unimpl m else m).
-  assert (Hh1k : forall m, mkey (h1 m) = mkey m) by (intros m; unfold h1; destruct (kmem (mkey m) imp); reflexivity).
-  set (s1 := with_mods (map h1 (mods mid)) mid).
-  change (fun (a : state * list (list key)) k => (with_mods (rm_mod k (mods (fst a))) (fst a), rm_from_depsets k (snd a)))
-    with rm_step.
-  assert (Hm1 : mods s1 = map h1 (olds_of s mid) ++ map h1 (news_of s mid)).
-  { unfold s1. cbn [with_mods mods]. rewrite (olds_news s mid) at 1. apply map_app. }
-  assert (Hk1 : keys (map h1 (news_of s mid)) = keys (news_of s mid)).
-  { unfold keys. rewrite map_map. apply map_ext. exact Hh1k. }
-  assert (Hko : keys (map h1 (olds_of s mid)) = keys (olds_of s mid)).
-  { unfold keys. rewrite map_map. apply map_ext. exact Hh1k. }
-  assert (Hnd1 : NoDup (keys (map h1 (olds_of s mid) ++ map h1 (news_of s mid)))).
-  { unfold keys in *. rewrite map_app, Hk1, Hko, <- map_app, <- (olds_news s mid). exact Hnd. }
-  assert (Hperm : Permutation (creating s1) (keys (map h1 (news_of s mid)))).
-  { unfold s1. cbn [with_mods creating]. rewrite Hcr, Hk1. apply Permutation_refl. }
-  pose proof (remove_created (map h1 (olds_of s mid)) (creating s1) (map h1 (news_of s mid)) s1 dss Hm1 Hperm Hnd1) as R.
-  cbv zeta in R. destruct (fold_left rm_step (creating s1) (s1, dss)) as [s2 dss2]. cbn [fst snd] in R.
-  destruct R as [Es2 Hkeep]. subst s2.
-  set (s2 := with_mods (map h1 (olds_of s mid)) s1).
-  (* the pairs *)
-  pose proof (Forall2_with_In _ _ _ (Forall2_3 _ _ _ _ _ (qi_olds _ _ _ _ Q) F L)) as FA.
-  assert (Hlen2 : length (mods s2) = length (mods s)).
-  { unfold s2. cbn [with_mods mods]. rewrite map_length. symmetry. apply (Forall2_length' _ _ _ (qi_olds _ _ _ _ Q)). }
-  assert (Holds2 : olds_of s s2 = mods s2) by (unfold olds_of; rewrite <- Hlen2; apply firstn_all).
-  assert (Hnew : forall m0, In m0 (mods s) -> ~ In (mkey m0) (creating s1)).
-  { intros m0 H0. unfold s1. cbn [with_mods creating]. rewrite Hcr. rewrite (olds_news s mid) in Hnd.
-    unfold keys in Hnd. rewrite map_app in Hnd. intros Hin. apply (NoDup_app_not_l _ _ _ Hnd Hin).
-    fold (keys (olds_of s mid)). rewrite (keys_olds_Q s imp _ mid Q). apply in_map. exact H0. }
-  assert (FU : Forall2 (fun m0 m'' => In m0 (mods s) /\ qrel [] (concat dss2) m0 m'' /\ m_feats m'' = m_feats m0 /\
-                                      m_latest m'' = m_latest m0 /\ (imp = [] -> m_comp m'' = m_comp m0))
-                       (mods s) (mods s2)).
-  { unfold s2. cbn [with_mods mods]. eapply Forall2_map_r_gen; [exact FA|]. cbn.
-    intros m0 m' [H0 [Hr [[_ Hf] [_ Hl]]]]. pose proof (wfs_mods _ W m0 H0) as Wm.
-    destruct Hr as [R1 R2 R3 R4 R5 R6 R7 R8 R9 R10]. unfold h1.
-    destruct (kmem (mkey m') imp) eqn:Ek.
-    - apply kmem_In in Ek. rewrite R1 in Ek. pose proof (R8 Ek) as Hi0.
-      split; [exact H0|]. split; [|split; [exact Hf|split; [exact Hl|]]].
-      + constructor; cbn; try assumption; try discriminate.
-        * intros H. congruence.
-        * intros [].
-        * left. symmetry. apply (wf_comp_nimpl _ _ Wm Hi0).
-      + intros _. cbn. symmetry. apply (wf_comp_nimpl _ _ Wm Hi0).
-    - apply kmem_false in Ek. rewrite R1 in Ek.
-      split; [exact H0|]. split; [|split; [exact Hf|split; [exact Hl|]]].
-      + constructor; try assumption.
-        * intros H. destruct (R7 H) as [H'|H']; [left; exact H'|contradiction].
-        * intros [].
-        * destruct R10 as [H|[[H1 H2]|H]]; [left; exact H| |contradiction].
-          right. left. split; [exact H1|]. apply Hkeep; [apply Hnew; exact H0|exact H2].
-      + intros Hnl. destruct R10 as [H|[[H1 H2]|H]]; [exact H| |contradiction].
-        rewrite (Hnil Hnl) in H2. destruct H2. }
-  assert (Q2 : QI s [] (concat dss2) s2).
-  { constructor.
-    - apply (qi_expl _ _ _ _ Q).
-    - rewrite Hlen2. apply le_n.
-    - unfold s2. cbn [with_mods mods]. rewrite Hko, (keys_olds_Q s imp _ mid Q). apply (wfs_nodup _ W).
-    - rewrite Holds2. eapply Forall2_impl; [|exact FU]. cbn. tauto. }
-  assert (F2 : FE s s2).
-  { unfold FE. rewrite Holds2. eapply Forall2_impl; [|exact FU]. cbn. intros a b [_ [Hr [Hf _]]].
-    split; [apply (q_key _ _ _ _ Hr)|exact Hf]. }
-  assert (L2 : LE s s2).
-  { unfold LE, PE. rewrite Holds2. eapply Forall2_impl; [|exact FU]. cbn. intros a b [_ [Hr [_ [Hl _]]]].
-    split; [apply (q_key _ _ _ _ Hr)|exact Hl]. }
-  assert (Himp2 : implementing s2 = imp) by exact Himp.
-  rewrite Himp2.
-  destruct imp as [|k0 imp'].
-  - (* nothing was being implemented: nothing is recompiled *)
-    cbn [erase with_implementing with_creating mods].
-    eapply Forall2_impl; [|exact FU]. cbn. intros a b [_ [Hr [Hf [Hl Hc]]]].
-    destruct Hr as [R1 R2 R3 R4 R5 R6 R7 R8 R9 R10]. constructor; try assumption; [|apply Hc; reflexivity].
-    destruct (m_impl a) eqn:Ea; [apply R6; reflexivity|]. destruct (m_impl b) eqn:Eb; [|reflexivity].
-    destruct (R7 eq_refl) as [H|[]]. discriminate.
-  - (* the previous context is recompiled *)
-    assert (H2 : healthy s2).
-    { intros m'' Hin Htc. destruct (Forall2_In_r _ _ _ _ FU Hin) as [m0 [_ [H0 [Hr [Hf _]]]]].
-      destruct Hr as [R1 R2 R3 R4 R5 R6 R7 R8 R9 R10].
-      rewrite (compiles_ok_ext m0 m'' Hf R3). destruct (R7 (R9 Htc)) as [Hi|[]].
-      apply (wf_comp_impl _ _ (wfs_mods _ W m0 H0) Hi). }
-    assert (Hd2 : forall ds, In ds dss2 -> incl ds (concat dss2)).
-    { intros ds Hin x Hx. apply in_concat. exists ds. tauto. }
-    destruct (compile_all_QI s [] (concat dss2) W dss2 s2 Q2 F2 Hd2) as [Q3 S3].
-    destruct (compile_all_ok s (concat dss2) W dss2 s2 Q2 F2 H2 Hd2) as [_ [_ T3]].
-    set (s3 := fst (compile_all dss2 s2)) in *.
-    assert (Hlen3 : length (mods s3) = length (mods s)).
-    { rewrite <- Hlen2. pose proof (f_equal (@length _) (sb_mods _ _ _ S3)) as E. rewrite !map_length in E. exact E. }
-    assert (Holds3 : olds_of s s3 = mods s3) by (unfold olds_of; rewrite <- Hlen3; apply firstn_all).
-    pose proof (FE_same_but s s2 s3 S3 F2) as F3.
-    assert (L3 : LE s s3).
-    { apply (PE_same_but m_latest no_tc_comp s s2 s3); [intros m; reflexivity|intros m; reflexivity|exact S3|exact L2]. }
-    cbn [erase with_implementing with_creating mods].
-    pose proof (Forall2_with_In _ _ _ (Forall2_3 _ _ _ _ _ (qi_olds _ _ _ _ Q3) F3 L3)) as FB.
-    rewrite Holds3 in FB. pose proof (Forall2_with_In_r _ _ _ FB) as FB'.
-    eapply Forall2_impl; [|exact FB']. cbn. intros a b [Hb [H0 [Hr [[_ Hf] [_ Hl]]]]].
-    destruct Hr as [R1 R2 R3 R4 R5 R6 R7 R8 R9 R10]. constructor; try assumption.
-    + destruct (m_impl a) eqn:Ea; [apply R6; reflexivity|]. destruct (m_impl b) eqn:Eb; [|reflexivity].
-      destruct (R7 eq_refl) as [H|[]]. discriminate.
-    + destruct R10 as [H|[[H1 H2']|[]]]; [exact H|].
-      assert (Fb : find_mod (mkey b) (mods s3) = Some b)
-        by (apply find_mod_unique; [apply (qi_nodup _ _ _ _ Q3)|exact Hb|reflexivity]).
-      rewrite R1 in Fb. rewrite (T3 (mkey a) b H2' Fb) in H1. discriminate.
-Qed.
-
 
 (* ------------------------------------------------------------------------------------------------ *)
 (* the hypotheses at the cleanup point, positionally                                                *)
@@ -1931,6 +1787,681 @@ Proof.
     constructor; try reflexivity. cbn [with_implementing add_ev upd_s with_mods mods]. apply keys_upd. reflexivity.
 Qed.
 
+
+(* ------------------------------------------------------------------------------------------------ *)
+(* the latest-revision flag: exactly the newest revision of every name carries it (invariant LJ)    *)
+(* ------------------------------------------------------------------------------------------------ *)
+Definition kl (l : list modl) : list (key * bool) := map (fun m => (mkey m, m_latest m)) l.
+
+Definition is_max (n : N) (ks : list key) (k : key) : Prop :=
+  In k ks /\ fst k = n /\ forall k', In k' ks -> fst k' = n -> snd k' <= snd k.
+
+Definition LJ (l : list modl) : Prop :=
+  NoDup (keys l) /\ forall k b, In (k, b) (kl l) -> (b = true <-> is_max (fst k) (keys l) k).
+
+Lemma keys_kl l : keys l = map fst (kl l).
+Proof. unfold keys, kl. rewrite map_map. reflexivity. Qed.
+
+Lemma LJ_kl l l' : kl l' = kl l -> LJ l -> LJ l'.
+Proof. intros E [H1 H2]. unfold LJ. rewrite (keys_kl l'), E, <- (keys_kl l). split; assumption. Qed.
+
+Lemma is_max_unique n ks k k' : is_max n ks k -> is_max n ks k' -> k = k'.
+Proof.
+  intros [I1 [F1 M1]] [I2 [F2 M2]]. pose proof (M1 k' I2 F2). pose proof (M2 k I1 F1).
+  destruct k, k'. cbn in *. f_equal; [congruence|lia].
+Qed.
+
+Lemma is_max_perm n ks ks' k : Permutation ks ks' -> is_max n ks k -> is_max n ks' k.
+Proof.
+  intros P [I [F M]]. split; [apply (Permutation_in _ P I)|]. split; [exact F|].
+  intros k' I' F'. apply M; [apply (Permutation_in _ (Permutation_sym P) I')|exact F'].
+Qed.
+
+Lemma classic_dec_ex n (ks : list key) : {exists k, In k ks /\ fst k = n} + {~ exists k, In k ks /\ fst k = n}.
+Proof.
+  induction ks as [|x ks IH].
+  - right. intros [k [[] _]].
+  - destruct (N.eq_dec (fst x) n) as [E|E]; [left; exists x; split; [left; reflexivity|exact E]|].
+    destruct IH as [H|H].
+    + left. destruct H as [k [I F]]. exists k. split; [right; exact I|exact F].
+    + right. intros [k [[<-|I] F]]; [contradiction|]. apply H. exists k. tauto.
+Qed.
+
+Lemma max_exists n ks : (exists k, In k ks /\ fst k = n) -> exists k, is_max n ks k.
+Proof.
+  induction ks as [|x ks IH]; intros [k [Hin Hf]]; [destruct Hin|].
+  destruct (N.eq_dec (fst x) n) as [Ex|Ex].
+  - destruct (classic_dec_ex n ks) as [Hex|Hno].
+    + destruct (IH Hex) as [m [I [F M]]]. destruct (N.le_gt_cases (snd x) (snd m)) as [Hle|Hgt].
+      * exists m. split; [right; exact I|]. split; [exact F|]. intros k' [<-|I'] F'; [exact Hle|apply M; assumption].
+      * exists x. split; [left; reflexivity|]. split; [exact Ex|]. intros k' [<-|I'] F'; [lia|].
+        pose proof (M k' I' F'). lia.
+    + exists x. split; [left; reflexivity|]. split; [exact Ex|]. intros k' [<-|I'] F'; [lia|].
+      exfalso. apply Hno. exists k'. tauto.
+  - destruct Hin as [->|Hin]; [contradiction|]. destruct (IH (ex_intro _ k (conj Hin Hf))) as [m [I [F M]]].
+    exists m. split; [right; exact I|]. split; [exact F|]. intros k' [<-|I'] F'; [contradiction|apply M; assumption].
+Qed.
+
+Lemma newer_cond a m : negb (m_rev m =? 0) && ((m_rev a =? 0) || (m_rev a <? m_rev m)) = (m_rev a <? m_rev m).
+Proof.
+  destruct (m_rev m =? 0) eqn:E0; cbn [negb andb].
+  - apply N.eqb_eq in E0. rewrite E0. symmetry. apply N.ltb_ge. lia.
+  - destruct (m_rev a =? 0) eqn:Ea; cbn [orb]; [|reflexivity].
+    apply N.eqb_eq in Ea. apply N.eqb_neq in E0. symmetry. apply N.ltb_lt. lia.
+Qed.
+
+Lemma keys_app l1 l2 : keys (l1 ++ l2) = keys l1 ++ keys l2.
+Proof. unfold keys. apply map_app. Qed.
+
+Definition newest_inv (n : N) (p : list modl) (acc : option modl) : Prop :=
+  match acc with
+  | None => forall m, In m p -> m_name m <> n
+  | Some a => In a p /\ is_max n (keys p) (mkey a)
+  end.
+
+Lemma newest_gen n : forall l p acc, newest_inv n p acc ->
+  newest_inv n (p ++ l)
+    (fold_left (fun acc m =>
+                  if m_name m =? n then
+                    match acc with
+                    | None => Some m
+                    | Some a => if negb (m_rev m =? 0) && ((m_rev a =? 0) || (m_rev a <? m_rev m)) then Some m else Some a
+                    end
+                  else acc) l acc).
+Proof.
+  induction l as [|m l IH]; intros p acc H; cbn [fold_left]; [rewrite app_nil_r; exact H|].
+  replace (p ++ m :: l) with ((p ++ [m]) ++ l) by (rewrite <- app_assoc; reflexivity).
+  apply IH. destruct (m_name m =? n) eqn:En.
+  - apply N.eqb_eq in En. destruct acc as [a|]; cbn [newest_inv] in *.
+    + rewrite newer_cond. destruct H as [Ia [Ik [Fk Mk]]]. destruct (m_rev a <? m_rev m) eqn:El.
+      * apply N.ltb_lt in El. split; [apply in_or_app; right; left; reflexivity|].
+        rewrite keys_app. split; [apply in_or_app; right; left; reflexivity|]. split; [exact En|].
+        intros k' Hk' Fk'. apply in_app_or in Hk'. destruct Hk' as [Hk'|[<-|[]]]; [|cbn; lia].
+        pose proof (Mk k' Hk' Fk') as Hle. cbn [mkey snd] in *. lia.
+      * apply N.ltb_ge in El. split; [apply in_or_app; left; exact Ia|]. rewrite keys_app.
+        split; [apply in_or_app; left; exact Ik|]. split; [exact Fk|].
+        intros k' Hk' Fk'. apply in_app_or in Hk'. destruct Hk' as [Hk'|[<-|[]]]; [apply Mk; assumption|exact El].
+    + split; [apply in_or_app; right; left; reflexivity|]. rewrite keys_app.
+      split; [apply in_or_app; right; left; reflexivity|]. split; [exact En|].
+      intros k' Hk' Fk'. apply in_app_or in Hk'. destruct Hk' as [Hk'|[<-|[]]]; [|cbn; lia].
+      unfold keys in Hk'. apply in_map_iff in Hk'. destruct Hk' as [x [<- Hx]]. exfalso. apply (H x Hx). exact Fk'.
+  - apply N.eqb_neq in En. destruct acc as [a|]; cbn [newest_inv] in *.
+    + destruct H as [Ia [Ik [Fk Mk]]]. split; [apply in_or_app; left; exact Ia|]. rewrite keys_app.
+      split; [apply in_or_app; left; exact Ik|]. split; [exact Fk|].
+      intros k' Hk' Fk'. apply in_app_or in Hk'. destruct Hk' as [Hk'|[<-|[]]]; [apply Mk; assumption|].
+      exfalso. apply En. exact Fk'.
+    + intros x Hx. apply in_app_or in Hx. destruct Hx as [Hx|[<-|[]]]; [apply H; exact Hx|exact En].
+Qed.
+
+Lemma newest_spec n l : newest_inv n l (newest n l).
+Proof. apply (newest_gen n l [] None). intros m []. Qed.
+
+(* with the invariant, ly_ctx_get_module_latest finds the newest revision, or the name is not in the context *)
+Lemma LJ_flag l m : LJ l -> In m l -> (m_latest m = true <-> is_max (m_name m) (keys l) (mkey m)).
+Proof.
+  intros [_ H] Hin. apply (H (mkey m) (m_latest m)). unfold kl. apply in_map_iff. exists m. tauto.
+Qed.
+
+Lemma LJ_get_latest l n : LJ l ->
+  match get_latest n l with
+  | Some L => In L l /\ m_latest L = true /\ is_max n (keys l) (mkey L)
+  | None => forall m, In m l -> m_name m <> n
+  end.
+Proof.
+  intros J. unfold get_latest. destruct (find _ l) as [L|] eqn:F.
+  - apply find_some in F. destruct F as [Hin H]. apply andb_true_iff in H. destruct H as [Hn Hl].
+    apply N.eqb_eq in Hn. split; [exact Hin|]. split; [exact Hl|]. rewrite <- Hn. apply (LJ_flag l L J Hin). exact Hl.
+  - intros m Hin Hn.
+    destruct (max_exists n (keys l)) as [k Hk]; [exists (mkey m); split; [apply in_map; exact Hin|exact Hn]|].
+    pose proof Hk as [Ik [Fk _]]. apply in_map_iff in Ik. destruct Ik as [x [Ex Hx]]. subst k.
+    pose proof (find_none _ _ F x Hx) as Hf. cbn in Hf.
+    cbn [mkey fst] in Fk.
+    assert (Hlx : m_latest x = true) by (apply (LJ_flag l x J Hx); rewrite Fk; exact Hk).
+    rewrite Fk, N.eqb_refl, Hlx in Hf. discriminate.
+Qed.
+
+Lemma LJ_intro l : NoDup (keys l) ->
+  (forall m, In m l -> (m_latest m = true <-> is_max (m_name m) (keys l) (mkey m))) -> LJ l.
+Proof.
+  intros Hnd H. split; [exact Hnd|]. intros k b Hin. unfold kl in Hin. apply in_map_iff in Hin.
+  destruct Hin as [m [E Hm]]. inversion E; subst. apply (H m Hm).
+Qed.
+
+Lemma is_max_snoc_other n ks k x : fst k <> n -> (is_max n (ks ++ [k]) x <-> is_max n ks x).
+Proof.
+  intros Hne. split; intros [I [F M]].
+  - split; [|split; [exact F|]].
+    + apply in_app_or in I. destruct I as [I|[<-|[]]]; [exact I|contradiction].
+    + intros k' I' F'. apply M; [apply in_or_app; left; exact I'|exact F'].
+  - split; [apply in_or_app; left; exact I|]. split; [exact F|].
+    intros k' I' F'. apply in_app_or in I'. destruct I' as [I'|[<-|[]]]; [apply M; assumption|contradiction].
+Qed.
+Lemma is_max_snoc_inv n ks k x : is_max n (ks ++ [k]) x -> In x ks -> is_max n ks x.
+Proof.
+  intros [I [F M]] Hx. split; [exact Hx|]. split; [exact F|]. intros k' I' F'. apply M; [apply in_or_app; left; exact I'|exact F'].
+Qed.
+Lemma is_max_snoc_keep n ks k x : is_max n ks x -> snd k <= snd x -> is_max n (ks ++ [k]) x.
+Proof.
+  intros [I [F M]] Hle. split; [apply in_or_app; left; exact I|]. split; [exact F|].
+  intros k' I' F'. apply in_app_or in I'. destruct I' as [I'|[<-|[]]]; [apply M; assumption|exact Hle].
+Qed.
+
+Lemma newer_cond_N ra r : negb (r =? 0) && ((ra =? 0) || (ra <? r)) = (ra <? r).
+Proof.
+  destruct (r =? 0) eqn:E0; cbn [negb andb].
+  - apply N.eqb_eq in E0. rewrite E0. symmetry. apply N.ltb_ge. lia.
+  - destruct (ra =? 0) eqn:Ea; cbn [orb]; [|reflexivity].
+    apply N.eqb_eq in Ea. apply N.eqb_neq in E0. symmetry. apply N.ltb_lt. lia.
+Qed.
+
+Definition clr_ls (m : modl) : modl := set_lsearch false (set_latest false m).
+
+(* lys_parse_in: the new module takes the flag from the previous latest revision exactly when it is newer *)
+Lemma create_LJ l d :
+  LJ l -> ~ In (d_name d, d_rev d) (keys l) ->
+  LJ (match get_latest (d_name d) l with
+      | Some L => if negb (d_rev d =? 0) && ((m_rev L =? 0) || (m_rev L <? d_rev d))
+                  then upd (mkey L) clr_ls l ++ [new_module d (m_latest L) (m_lsearch L)]
+                  else l ++ [new_module d false false]
+      | None => l ++ [new_module d true false]
+      end).
+Proof.
+  intros J Hfresh. pose proof (proj1 J) as Hnd. set (k := (d_name d, d_rev d)) in *.
+  pose proof (LJ_get_latest l (d_name d) J) as HL. destruct (get_latest (d_name d) l) as [L|].
+  - destruct HL as [HinL [HlL HmL]]. rewrite newer_cond_N. destruct (m_rev L <? d_rev d) eqn:El.
+    + apply N.ltb_lt in El.
+      assert (Hk : keys (upd (mkey L) clr_ls l ++ [new_module d (m_latest L) (m_lsearch L)]) = keys l ++ [k]).
+      { rewrite keys_app, keys_upd by reflexivity. reflexivity. }
+      apply LJ_intro; rewrite Hk; [apply NoDup_snoc; assumption|].
+      intros m' Hin. apply in_app_or in Hin. destruct Hin as [Hin|[<-|[]]].
+      * unfold upd in Hin. apply in_map_iff in Hin. destruct Hin as [m [E Hm]].
+        destruct (key_eqb (mkey m) (mkey L)) eqn:Ek.
+        -- apply key_eqb_eq in Ek. subst m'. cbn. split; [discriminate|]. intros [_ [_ M]]. exfalso.
+           assert (Hle : snd k <= snd (mkey m)).
+           { apply M; [apply in_or_app; right; left; reflexivity|]. cbn.
+             pose proof (f_equal fst Ek) as E1. cbn in E1. destruct HmL as [_ [F _]]. cbn in F. congruence. }
+           pose proof (f_equal snd Ek) as E2. cbn in E2, Hle. lia.
+        -- apply key_eqb_neq in Ek. subst m'. destruct (N.eq_dec (m_name m) (d_name d)) as [En|En].
+           ++ assert (Hnot : ~ is_max (m_name m) (keys l) (mkey m)).
+              { intros Hm'. rewrite En in Hm'. apply Ek. apply (is_max_unique _ _ _ _ Hm' HmL). }
+              split; [intros Hl; exfalso; apply Hnot; apply (LJ_flag l m J Hm); exact Hl|].
+              intros Hm'. exfalso. apply Hnot. apply (is_max_snoc_inv _ _ k); [exact Hm'|apply in_map; exact Hm].
+           ++ rewrite is_max_snoc_other by (cbn; congruence). apply (LJ_flag l m J Hm).
+      * cbn. rewrite HlL. split; [intros _|reflexivity]. split; [apply in_or_app; right; left; reflexivity|].
+        split; [reflexivity|]. intros k' I' F'. apply in_app_or in I'. destruct I' as [I'|[<-|[]]]; [|cbn; lia].
+        destruct HmL as [_ [_ M]]. pose proof (M k' I' F') as Hle. cbn in *. lia.
+    + apply N.ltb_ge in El. apply LJ_intro; rewrite keys_app; [apply NoDup_snoc; assumption|].
+      change (keys [new_module d false false]) with [k].
+      intros m' Hin. apply in_app_or in Hin. destruct Hin as [Hm|[<-|[]]].
+      * destruct (N.eq_dec (m_name m') (d_name d)) as [En|En].
+        -- rewrite (LJ_flag l m' J Hm). split.
+           ++ intros Hm'. apply is_max_snoc_keep; [exact Hm'|]. rewrite En in Hm'.
+              rewrite (is_max_unique _ _ _ _ Hm' HmL). exact El.
+           ++ intros Hm'. apply (is_max_snoc_inv _ _ k); [exact Hm'|apply in_map; exact Hm].
+        -- rewrite is_max_snoc_other by (cbn; congruence). apply (LJ_flag l m' J Hm).
+      * cbn. split; [discriminate|]. intros [_ [_ M]]. exfalso.
+        destruct HmL as [IL [FL ML]].
+        assert (Hle : snd (mkey L) <= snd k) by (apply M; [apply in_or_app; left; exact IL|exact FL]).
+        apply Hfresh. replace k with (mkey L); [exact IL|]. unfold k, mkey. cbn in FL, Hle. f_equal; [exact FL|lia].
+  - apply LJ_intro; rewrite keys_app; [apply NoDup_snoc; assumption|].
+    change (keys [new_module d true false]) with [k].
+    intros m' Hin. apply in_app_or in Hin. destruct Hin as [Hm|[<-|[]]].
+    + rewrite is_max_snoc_other by (cbn; intros E; apply (HL m' Hm); symmetry; exact E). apply (LJ_flag l m' J Hm).
+    + cbn. split; [intros _|reflexivity]. split; [apply in_or_app; right; left; reflexivity|]. split; [reflexivity|].
+      intros k' I' F'. apply in_app_or in I'. destruct I' as [I'|[<-|[]]]; [|cbn; lia].
+      unfold keys in I'. apply in_map_iff in I'. destruct I' as [x [<- Hx]]. exfalso. apply (HL x Hx). exact F'.
+Qed.
+
+Definition LJs (t : state) : Prop := LJ (mods t).
+
+Lemma kl_upd k g l : (forall m, mkey (g m) = mkey m /\ m_latest (g m) = m_latest m) -> kl (upd k g l) = kl l.
+Proof.
+  intros H. unfold kl, upd. rewrite map_map. apply map_ext. intros m. destruct (key_eqb (mkey m) k); [|reflexivity].
+  destruct (H m) as [-> ->]. reflexivity.
+Qed.
+Lemma LJs_upd t k g : LJs t -> (forall m, mkey (g m) = mkey m /\ m_latest (g m) = m_latest m) -> LJs (upd_s k g t).
+Proof. intros J H. unfold LJs in *. cbn [upd_s with_mods mods]. eapply LJ_kl; [apply kl_upd; exact H|exact J]. Qed.
+
+Ltac LJ_step :=
+  first [ assumption
+        | apply LJs_upd; [|intros ?m; split; reflexivity] ].
+
+Lemma load_from_clb_LJ pin R t name rev ml :
+  (forall t d chk, LJs t -> LJs (fst (pin t d chk))) -> LJs t -> LJs (fst (load_from_clb pin R t name rev ml)).
+Proof.
+  intros Hpin P. unfold load_from_clb.
+  destruct (match ml with Some ml0 => m_limpclb ml0 | None => false end); [exact P|].
+  destruct (repo_serve R name rev) as [d|]; [|exact P].
+  pose proof (Hpin t d (Some (name, rev)) P) as Hp. destruct (pin t d (Some (name, rev))) as [s' r].
+  cbn [fst] in Hp. destruct r; cbn [fst]; try exact Hp; destruct (rev =? 0); repeat LJ_step.
+Qed.
+
+Lemma parse_load_LJ pin R t name rev :
+  (forall t d chk, LJs t -> LJs (fst (pin t d chk))) -> LJs t -> LJs (fst (parse_load pin R t name rev)).
+Proof.
+  intros Hpin P. unfold parse_load.
+  destruct (pick_in_ctx (mods t) name rev) as [found mod_latest].
+  destruct found as [m|]; [exact P|].
+  pose proof (load_from_clb_LJ pin R t name rev mod_latest Hpin P) as H2.
+  destruct (load_from_clb pin R t name rev mod_latest) as [s2 got]. cbn [fst] in H2.
+  destruct got as [k|]; [|destruct mod_latest as [ml|]]; cbn [fst].
+  - destruct ((rev =? 0) && match find_mod k (mods s2) with Some m => m_latest m | None => false end); repeat LJ_step.
+  - destruct (find_mod (mkey ml) (mods s2)) as [ml'|]; [destruct (m_latest ml')|]; repeat LJ_step.
+  - exact H2.
+Qed.
+
+Lemma resolve_imports_LJ pl self imps : (forall t n r, LJs t -> LJs (fst (pl t n r))) ->
+  forall t, LJs t -> LJs (fst (resolve_imports pl self imps t)).
+Proof.
+  intros Hpl. induction imps as [|[n r] imps IH]; intros t P; cbn [resolve_imports fst]; [exact P|].
+  pose proof (Hpl t n r P) as H1. destruct (pl t n r) as [s1 res]. cbn [fst] in H1.
+  destruct res as [k|]; [|exact H1]. apply IH. destruct (r =? 0); repeat LJ_step.
+Qed.
+
+Lemma parse_in_LJ fuel R : forall t d chk, LJs t -> LJs (fst (parse_in fuel R t d chk)).
+Proof.
+  induction fuel as [|fuel IH]; intros t d chk P; cbn [parse_in]; [exact P|].
+  destruct (d_fault d =? 1); [exact P|].
+  destruct (match get_latest (d_name d) (mods t) with
+            | Some L => if negb (d_rev d =? 0) && ((m_rev L =? 0) || (m_rev L <? d_rev d))
+                        then (m_latest L, m_lsearch L, Some (mkey L)) else (false, false, None)
+            | None => (true, false, None) end) as [[nl ns] disp] eqn:Ed.
+  destruct (_ =? 1); [exact P|]. destruct (_ =? 2); [exact P|].
+  destruct (get_module (d_name d) (d_rev d) (mods t)) as [m|] eqn:G; [exact P|].
+  apply get_module_none in G.
+  match goal with |- context [resolve_imports ?pl ?k ?i ?t3] =>
+    assert (P3 : LJs t3); [|assert (H4 : LJs (fst (resolve_imports pl k i t3)))] end.
+  - unfold LJs. cbn [add_ev with_mods with_creating mods]. pose proof (create_LJ (mods t) d P G) as C.
+    destruct (get_latest (d_name d) (mods t)) as [L|].
+    + destruct (negb (d_rev d =? 0) && ((m_rev L =? 0) || (m_rev L <? d_rev d))); inversion Ed; subst; exact C.
+    + inversion Ed; subst. exact C.
+  - apply resolve_imports_LJ; [|exact P3]. intros t' n r P'. apply parse_load_LJ; [|exact P']. intros; apply IH; assumption.
+  - match goal with |- context [resolve_imports ?pl ?k ?i ?t3] => destruct (resolve_imports pl k i t3) as [s4 ok] end.
+    cbn [fst] in H4. destruct (negb ok); [exact H4|]. destruct (d_fault d =? 2); exact H4.
+Qed.
+
+Lemma is_max_cons_other n k ks x : fst k <> n -> (is_max n (k :: ks) x <-> is_max n ks x).
+Proof.
+  intros Hne. split; intros [I [F M]].
+  - split; [destruct I as [<-|I]; [contradiction|exact I]|]. split; [exact F|]. intros k' I' F'. apply M; [right; exact I'|exact F'].
+  - split; [right; exact I|]. split; [exact F|]. intros k' [<-|I'] F'; [contradiction|apply M; assumption].
+Qed.
+Lemma is_max_cons_inv n k ks x : is_max n (k :: ks) x -> In x ks -> is_max n ks x.
+Proof. intros [I [F M]] Hx. split; [exact Hx|]. split; [exact F|]. intros k' I' F'. apply M; [right; exact I'|exact F']. Qed.
+Lemma is_max_cons_keep n k ks x : is_max n ks x -> (fst k = n -> snd k <= snd x) -> is_max n (k :: ks) x.
+Proof.
+  intros [I [F M]] Hle. split; [right; exact I|]. split; [exact F|]. intros k' [<-|I'] F'; [apply Hle; exact F'|apply M; assumption].
+Qed.
+
+Lemma nth_error_keys l i k : nth_error (keys l) i = Some k -> exists m, nth_error l i = Some m /\ mkey m = k.
+Proof.
+  unfold keys. intros H. destruct (nth_error l i) as [m|] eqn:E.
+  - exists m. rewrite (map_nth_error mkey i l E) in H. inversion H. tauto.
+  - apply nth_error_None in E. assert (nth_error (map mkey l) i = None) by (apply nth_error_None; rewrite map_length; exact E). congruence.
+Qed.
+
+(* one step of the removal loop of lys_unres_glob_revert keeps the invariant *)
+Lemma rm_step_LJ t dss k : LJs t -> LJs (fst (rm_step (t, dss) k)).
+Proof.
+  unfold LJs, rm_step. cbn [fst snd with_mods mods]. set (l := mods t). intros J. pose proof (proj1 J) as Hnd.
+  unfold rm_mod. fold (keys l). destruct (index_of k (keys l)) as [i|] eqn:Ei.
+  2:{ apply index_of_None in Ei. assert (F : find_mod k l = None) by (apply find_mod_none; exact Ei). rewrite F. exact J. }
+  apply index_of_Some in Ei. destruct (nth_error_keys l i k Ei) as [mk [Emk Kmk]].
+  pose proof (rm_index_perm i l mk Emk) as Pm. set (l1 := rm_index i l) in *.
+  assert (Hmk : In mk l) by (apply (Permutation_in _ Pm); left; reflexivity).
+  assert (F : find_mod k l = Some mk) by (apply find_mod_unique; assumption). rewrite F.
+  assert (Pk : Permutation (k :: keys l1) (keys l)).
+  { unfold keys. rewrite <- Kmk. change (mkey mk :: map mkey l1) with (map mkey (mk :: l1)). apply Permutation_map. exact Pm. }
+  assert (Hnd1 : NoDup (k :: keys l1)) by (apply (Permutation_NoDup (Permutation_sym Pk) Hnd)).
+  apply NoDup_cons_iff in Hnd1. destruct Hnd1 as [Hk1 Hnd1'].
+  assert (Hsub : forall m, In m l1 -> In m l) by (intros m Hm; apply (Permutation_in _ Pm); right; exact Hm).
+  assert (Hflag : forall m, In m l1 -> (m_latest m = true <-> is_max (m_name m) (k :: keys l1) (mkey m))).
+  { intros m Hm. rewrite (LJ_flag l m J (Hsub m Hm)). split; apply is_max_perm; [apply Permutation_sym|]; exact Pk. }
+  assert (Hkm : forall m, In m l1 -> mkey m <> k).
+  { intros m Hm E. apply Hk1. rewrite <- E. apply in_map. exact Hm. }
+  destruct (m_latest mk) eqn:Elk.
+  - (* the removed module carried the flag: it was the newest revision of its name *)
+    assert (Mk : is_max (fst k) (keys l) k) by (rewrite <- Kmk; apply (LJ_flag l mk J Hmk); exact Elk).
+    assert (Hnone : forall m, In m l1 -> m_name m = fst k -> m_latest m = false).
+    { intros m Hm En. destruct (m_latest m) eqn:E; [|reflexivity]. exfalso. apply (Hkm m Hm).
+      apply (LJ_flag l m J (Hsub m Hm)) in E. rewrite En in E. apply (is_max_unique _ _ _ _ E Mk). }
+    pose proof (newest_spec (fst k) l1) as Hn. destruct (newest (fst k) l1) as [ml|]; cbn [newest_inv] in Hn.
+    + destruct Hn as [Iml Mml]. apply LJ_intro; rewrite keys_upd by reflexivity; [exact Hnd1'|].
+      intros m' Hin. unfold upd in Hin. apply in_map_iff in Hin. destruct Hin as [m [E Hm]].
+      destruct (key_eqb (mkey m) (mkey ml)) eqn:Ek.
+      * apply key_eqb_eq in Ek. subst m'. cbn. split; [intros _|reflexivity].
+        change (is_max (m_name m) (keys l1) (mkey m)). rewrite Ek. destruct Mml as [A [B C]].
+        replace (m_name m) with (fst k); [split; [exact A|split; [exact B|exact C]]|].
+        pose proof (f_equal fst Ek) as E1. cbn in E1, B. congruence.
+      * apply key_eqb_neq in Ek. subst m'. destruct (N.eq_dec (m_name m) (fst k)) as [En|En].
+        -- rewrite (Hnone m Hm En). split; [discriminate|]. intros Hmax. exfalso. apply Ek. rewrite En in Hmax.
+           apply (is_max_unique _ _ _ _ Hmax Mml).
+        -- rewrite (Hflag m Hm). apply is_max_cons_other. congruence.
+    + apply LJ_intro; [exact Hnd1'|]. intros m Hm. rewrite (Hflag m Hm). apply is_max_cons_other.
+      intros E. apply (Hn m Hm). symmetry. exact E.
+  - (* it did not: the newest revision of its name stays *)
+    apply LJ_intro; [exact Hnd1'|]. intros m Hm. rewrite (Hflag m Hm). split.
+    + intros Hmax. apply (is_max_cons_inv _ k); [exact Hmax|apply in_map; exact Hm].
+    + intros Hmax. apply is_max_cons_keep; [exact Hmax|]. intros Efk.
+      (* the newest revision of the name in l is flagged, so it is not the removed module *)
+      destruct (max_exists (m_name m) (keys l)) as [kx Hkx]; [exists (mkey m); split; [apply in_map; apply Hsub; exact Hm|reflexivity]|].
+      pose proof Hkx as [Ikx [Fkx Mkx]]. unfold keys in Ikx. apply in_map_iff in Ikx. destruct Ikx as [x [Ex Hx]].
+      assert (Hlx : m_latest x = true).
+      { apply (LJ_flag l x J Hx). rewrite Ex. replace (m_name x) with (m_name m); [exact Hkx|]. rewrite <- Ex in Fkx. cbn in Fkx. congruence. }
+      assert (Hxk : kx <> k).
+      { intros E. subst kx. assert (x = mk) by (apply (NoDup_keys_eq l); try assumption; congruence). subst x. congruence. }
+      assert (Ikx1 : In kx (keys l1)).
+      { assert (Hin : In kx (k :: keys l1)) by (apply (Permutation_in _ (Permutation_sym Pk)); rewrite <- Ex; apply in_map; exact Hx).
+        destruct Hin as [E|Hin]; [congruence|exact Hin]. }
+      destruct Hmax as [_ [_ Mm]]. pose proof (Mm kx Ikx1 Fkx) as H1.
+      assert (H2 : snd k <= snd kx).
+      { apply Mkx; [rewrite <- Kmk; apply in_map; exact Hmk|exact Efk]. }
+      lia.
+Qed.
+
+Lemma same_but_kl N t t' : (forall m, mkey (N m) = mkey m /\ m_latest (N m) = m_latest m) -> same_but N t t' ->
+  kl (mods t') = kl (mods t).
+Proof.
+  intros HN S.
+  assert (G : forall l, kl l = kl (map N l)).
+  { intros l. unfold kl. rewrite map_map. apply map_ext. intros m. destruct (HN m) as [-> ->]. reflexivity. }
+  rewrite G, (sb_mods _ _ _ S), <- G. reflexivity.
+Qed.
+
+Lemma fold_rm_step_LJ ks : forall t dss, LJs t -> LJs (fst (fold_left rm_step ks (t, dss))).
+Proof.
+  induction ks as [|k ks IH]; intros t dss J; cbn [fold_left]; [exact J|].
+  pose proof (rm_step_LJ t dss k J) as J1. destruct (rm_step (t, dss) k) as [t1 dss1]. apply IH. exact J1.
+Qed.
+
+Lemma revert_LJ t dss : LJs t -> LJs (revert t dss).
+Proof.
+  intros J. unfold revert.
+  set (s1 := fold_left _ (implementing t) t).
+  assert (J1 : LJs s1).
+  { unfold s1. rewrite (fold_upd_mods (fun m => set_tc false (set_comp None (set_impl false m)))) by reflexivity.
+    unfold LJs. cbn [with_mods mods]. eapply LJ_kl; [|exact J]. unfold kl. rewrite map_map. apply map_ext.
+    intros m. destruct (kmem (mkey m) (implementing t)); reflexivity. }
+  pose proof (fold_rm_step_LJ (creating s1) s1 dss J1) as J2.
+  destruct (fold_left rm_step (creating s1) (s1, dss)) as [s2 dss2]. cbn [fst] in J2.
+  destruct (implementing s2); [exact J2|].
+  unfold LJs. eapply LJ_kl; [|exact J2]. apply (same_but_kl no_tc_comp); [intros m; split; reflexivity|apply same_but_compile_all].
+Qed.
+
+Lemma iac_kl t k sel : kl (mods (fst (fst (implement_and_compile t k sel)))) = kl (mods t).
+Proof.
+  rewrite iac_unfold.
+  assert (Hdc : forall t2, kl (mods t2) = kl (mods t) ->
+            kl (mods (fst (fst (if explicit t2 then (t2, [], true) else dc t2 k)))) = kl (mods t)).
+  { intros t2 E2. destruct (explicit t2); [exact E2|]. rewrite <- E2.
+    apply (same_but_kl no_tc_comp); [intros m; split; reflexivity|apply dc_same_but]. }
+  destruct (set_implemented_cases t k sel) as [| |m fs F Hi Hs|m fs F Hi Hs]; cbn [negb fst].
+  - reflexivity.
+  - apply Hdc. reflexivity.
+  - apply Hdc. cbn [add_ev upd_s with_mods mods]. apply kl_upd. intros x; split; reflexivity.
+  - apply Hdc. rewrite (same_but_kl no_tc _ _ (fun x => conj eq_refl eq_refl) (has_compiled_import_r_same_but _ _ k)).
+    cbn [with_implementing add_ev upd_s with_mods mods]. apply kl_upd. intros x; split; reflexivity.
+Qed.
+
+Lemma attempt_LJ R t o : LJs t -> LJs (fst (fst (attempt R t o))).
+Proof.
+  intros J. destruct o as [d sel|name rev sel|name rev sel|]; cbn [attempt].
+  - pose proof (parse_in_LJ (pfuel R) R t d None J) as J1. destruct (parse_in (pfuel R) R t d None) as [t1 pr]. cbn [fst] in J1.
+    assert (H : forall k, LJs (fst (fst (let '(s2, dss, ok) := implement_and_compile t1 k sel in (s2, dss, if ok then ROk else RErr))))).
+    { intros k. pose proof (iac_kl t1 k sel) as E. destruct (implement_and_compile t1 k sel) as [[s2 dss] ok]. cbn [fst] in *.
+      unfold LJs. eapply LJ_kl; eassumption. }
+    destruct pr; try exact J1; apply H.
+  - pose proof (parse_load_LJ (parse_in (pfuel R) R) R t name rev (fun t0 d chk => parse_in_LJ (pfuel R) R t0 d chk) J) as J1.
+    destruct (parse_load (parse_in (pfuel R) R) R t name rev) as [t1 pr]. cbn [fst] in J1.
+    destruct pr as [k|]; [|exact J1].
+    pose proof (iac_kl t1 k sel) as E. destruct (implement_and_compile t1 k sel) as [[s2 dss] ok]. cbn [fst] in *.
+    unfold LJs. eapply LJ_kl; eassumption.
+  - destruct (get_module name rev (mods t)) as [m|]; [|exact J].
+    pose proof (iac_kl t (mkey m) sel) as E. destruct (implement_and_compile t (mkey m) sel) as [[s2 dss] ok]. cbn [fst] in *.
+    unfold LJs. eapply LJ_kl; eassumption.
+  - pose proof (same_but_dep_sets_create t None) as S1. destruct (dep_sets_create t None) as [s1 dss].
+    pose proof (same_but_compile_all dss s1) as S2. destruct (compile_all dss s1) as [s2 ok]. cbn [fst] in *.
+    unfold LJs. eapply LJ_kl; [|exact J].
+    rewrite (same_but_kl no_tc_comp _ _ (fun x => conj eq_refl eq_refl) S2).
+    apply (same_but_kl no_tc _ _ (fun x => conj eq_refl eq_refl) S1).
+Qed.
+
+Lemma step_LJ R s o : LJs s -> LJs (fst (step R s o)).
+Proof.
+  intros J. unfold step. pose proof (attempt_LJ R (core s) o J) as J1.
+  destruct (attempt R (core s) o) as [[mid dss] r]. cbn [fst] in J1. unfold finish.
+  assert (Hr : LJs (erase (revert mid dss))) by (apply (revert_LJ mid dss J1)).
+  destruct r; try exact Hr; try exact J1.
+  destruct o; try destruct (explicit mid); exact J1.
+Qed.
+
+Lemma init_LJ expl : LJs (init expl).
+Proof.
+  unfold LJs, init. cbn [mods]. apply LJ_intro.
+  - unfold keys, internal_mods. cbn. repeat constructor; cbn; intuition discriminate.
+  - intros m Hin. cbn in Hin.
+    repeat (destruct Hin as [<-|Hin]; [cbn; split; [intros _|reflexivity]; (split; [cbn; tauto|split; [reflexivity|]]);
+      intros k' Hk' Fk'; cbn in Hk'; repeat (destruct Hk' as [<-|Hk']; [first [discriminate Fk'|cbn; lia]|]); destruct Hk'|]).
+    destruct Hin.
+Qed.
+
+Lemma reachable_LJ R s : (exists expl ops, s = run R (init expl) ops) -> LJs s.
+Proof.
+  intros [expl [ops ->]]. unfold run. generalize (init_LJ expl). generalize (init expl).
+  induction ops as [|o ops IH]; intros s0 J; cbn [fold_left]; [exact J|]. apply IH. apply step_LJ. exact J.
+Qed.
+
+(* ------------------------------------------------------------------------------------------------ *)
+(* lys_unres_glob_revert: the loop over the created modules                                         *)
+(* ------------------------------------------------------------------------------------------------ *)
+Definition nrm_L (m : modl) : modl := set_latest false m.
+
+Lemma with_mods_with_mods l l' t : with_mods l (with_mods l' t) = with_mods l t.
+Proof. reflexivity. Qed.
+
+Lemma remove_created : forall ks olds news t dss,
+  mods t = olds ++ news -> Permutation ks (keys news) -> NoDup (keys (olds ++ news)) ->
+  let r := fold_left rm_step ks (t, dss) in
+  exists olds', fst r = with_mods olds' t /\ map nrm_L olds' = map nrm_L olds /\
+                (forall x, ~ In x ks -> In x (concat dss) -> In x (concat (snd r))).
+Proof.
+  induction ks as [|k ks IH]; intros olds news t dss Hm Hp Hnd; cbn [fold_left].
+  - cbn [fst snd]. apply Permutation_nil in Hp. destruct news; [|discriminate]. rewrite app_nil_r in Hm.
+    exists olds. split; [rewrite <- Hm; destruct t; reflexivity|]. split; [reflexivity|intros x _ H; exact H].
+  - assert (Hk : In k (keys news)) by (apply (Permutation_in _ Hp); left; reflexivity).
+    assert (Hko : ~ In k (keys olds)).
+    { unfold keys in *. rewrite map_app in Hnd. apply (NoDup_app_not_l _ _ k Hnd Hk). }
+    destruct (rm_mod_app_new olds news k Hko Hk) as [news' [E P]].
+    assert (Hp' : Permutation ks (keys news')).
+    { apply (Permutation_cons_inv (a := k)). eapply perm_trans; [exact Hp|apply Permutation_sym; exact P]. }
+    assert (Hnd' : NoDup (keys (olds ++ news'))).
+    { unfold keys in *. rewrite map_app in *.
+      assert (P2 : Permutation (map mkey olds ++ k :: map mkey news') (map mkey olds ++ map mkey news))
+        by (apply Permutation_app_head; exact P).
+      apply Permutation_sym in P2. pose proof (Permutation_NoDup P2 Hnd) as H. apply NoDup_remove_1 in H. exact H. }
+    (* the list after this step: olds and news' up to latest flags *)
+    assert (Hstep : exists olds1 news1, rm_step (t, dss) k = (with_mods (olds1 ++ news1) t, rm_from_depsets k dss) /\
+                      map nrm_L olds1 = map nrm_L olds /\ keys olds1 = keys olds /\ keys news1 = keys news').
+    { unfold rm_step. cbn [fst snd]. rewrite Hm, E.
+      destruct (match find_mod k (olds ++ news) with Some m => m_latest m | None => false end).
+      - destruct (newest (fst k) (olds ++ news')) as [ml|].
+        + exists (upd (mkey ml) (set_latest true) olds), (upd (mkey ml) (set_latest true) news').
+          rewrite upd_app. split; [reflexivity|]. split; [apply map_upd_inv; intros m; reflexivity|].
+          split; apply keys_upd; reflexivity.
+        + exists olds, news'. tauto.
+      - exists olds, news'. tauto. }
+    destruct Hstep as [olds1 [news1 [Es [En [Ek1 Ek2]]]]]. rewrite Es.
+    assert (Hnd1 : NoDup (keys (olds1 ++ news1))).
+    { rewrite keys_app, Ek1, Ek2, <- keys_app. exact Hnd'. }
+    destruct (IH olds1 news1 (with_mods (olds1 ++ news1) t) (rm_from_depsets k dss) eq_refl
+                (eq_ind_r (fun x => Permutation ks x) Hp' Ek2) Hnd1) as [olds' [A [B C]]].
+    exists olds'. split; [rewrite A; reflexivity|]. split; [rewrite B; exact En|].
+    intros x Hx Hin. apply C; [intros H; apply Hx; right; exact H|].
+    apply rm_from_depsets_keeps; [intros Heq; apply Hx; left; symmetry; exact Heq|exact Hin].
+Qed.
+
+Lemma LJ_same_keys l l' :
+  Forall2 (fun m m' => mkey m' = mkey m) l l' -> LJ l -> LJ l' -> Forall2 (fun m m' => m_latest m' = m_latest m) l l'.
+Proof.
+  intros F J J'.
+  assert (Ek : keys l' = keys l).
+  { unfold keys. clear -F. induction F as [|a b l l' H F IH]; cbn; [reflexivity|]. rewrite H, IH. reflexivity. }
+  pose proof (Forall2_with_In_r _ _ _ (Forall2_with_In _ _ _ F)) as F2.
+  eapply Forall2_impl; [|exact F2]. cbn. intros a b [Hb [Ha Hk]].
+  pose proof (LJ_flag l a J Ha) as Fa. pose proof (LJ_flag l' b J' Hb) as Fb. rewrite Ek, Hk in Fb.
+  assert (En : m_name b = m_name a) by (apply (f_equal fst Hk)). rewrite En in Fb.
+  destruct (m_latest a), (m_latest b); try reflexivity.
+  - apply Fb. apply Fa. reflexivity.
+  - symmetry. apply Fa. apply Fb. reflexivity.
+Qed.
+
+Lemma nrm_L_qrel imp D a b b' : nrm_L b' = nrm_L b -> qrel imp D a b -> qrel imp D a b'.
+Proof.
+  intros E [R1 R2 R3 R4 R5 R6 R7 R8 R9 R10].
+  pose proof (f_equal mkey E) as E1. pose proof (f_equal m_imps E) as E2. pose proof (f_equal m_cfault E) as E3.
+  pose proof (f_equal m_single E) as E4. pose proof (f_equal m_hasdep E) as E5. pose proof (f_equal m_impl E) as E6.
+  pose proof (f_equal m_tc E) as E7. pose proof (f_equal m_comp E) as E8.
+  cbn in E1, E2, E3, E4, E5, E6, E7, E8. change (mkey b' = mkey b) in E1.
+  constructor; rewrite ?E1, ?E2, ?E3, ?E4, ?E5, ?E6, ?E7, ?E8; assumption.
+Qed.
+
+Lemma Forall2_compose {A B} (R R' : A -> B -> Prop) (S : B -> B -> Prop) l l1 l2 :
+  Forall2 R l l1 -> Forall2 S l1 l2 -> (forall a b c, R a b -> S b c -> R' a c) -> Forall2 R' l l2.
+Proof.
+  intros F. revert l2. induction F as [|a b l l1 H F IH]; intros l2 G HS; inversion G; subst; constructor.
+  - eapply HS; eassumption.
+  - apply IH; assumption.
+Qed.
+
+Lemma revert_restores s imp dss mid :
+  wf_state s -> QI s imp (concat dss) mid -> FE s mid -> LJs s -> LJs mid ->
+  implementing mid = imp -> creating mid = keys (news_of s mid) -> (imp = [] -> dss = []) ->
+  Forall2 frel (mods s) (mods (erase (revert mid dss))).
+Proof.
+  intros W Q F Js Jm Himp Hcr Hnil.
+  pose proof (qi_nodup _ _ _ _ Q) as Hnd. pose proof (qi_len _ _ _ _ Q) as Hlen.
+  unfold revert. rewrite Himp.
+  change (fun s0 k => upd_s k (fun m => set_tc false (set_comp None (set_impl false m))) s0)
+    with (fun s0 k => upd_s k unimpl s0).
+  rewrite (fold_upd_mods unimpl) by reflexivity.
+  set (h1 := fun m => if kmem (mkey m) imp then unimpl m else m).
+  assert (Hh1k : forall m, mkey (h1 m) = mkey m) by (intros m; unfold h1; destruct (kmem (mkey m) imp); reflexivity).
+  set (s1 := with_mods (map h1 (mods mid)) mid).
+  assert (J1 : LJs s1).
+  { unfold LJs, s1. cbn [with_mods mods]. eapply LJ_kl; [|exact Jm]. unfold kl. rewrite map_map. apply map_ext.
+    intros m. unfold h1. destruct (kmem (mkey m) imp); reflexivity. }
+  assert (Hm1 : mods s1 = map h1 (olds_of s mid) ++ map h1 (news_of s mid)).
+  { unfold s1. cbn [with_mods mods]. rewrite (olds_news s mid) at 1. apply map_app. }
+  assert (Hk1 : keys (map h1 (news_of s mid)) = keys (news_of s mid)).
+  { unfold keys. rewrite map_map. apply map_ext. exact Hh1k. }
+  assert (Hko : keys (map h1 (olds_of s mid)) = keys (olds_of s mid)).
+  { unfold keys. rewrite map_map. apply map_ext. exact Hh1k. }
+  assert (Hnd1 : NoDup (keys (map h1 (olds_of s mid) ++ map h1 (news_of s mid)))).
+  { unfold keys in *. rewrite map_app, Hk1, Hko, <- map_app, <- (olds_news s mid). exact Hnd. }
+  assert (Hperm : Permutation (creating s1) (keys (map h1 (news_of s mid)))).
+  { unfold s1. cbn [with_mods creating]. rewrite Hcr, Hk1. apply Permutation_refl. }
+  pose proof (remove_created (creating s1) (map h1 (olds_of s mid)) (map h1 (news_of s mid)) s1 dss Hm1 Hperm Hnd1) as R.
+  pose proof (fold_rm_step_LJ (creating s1) s1 dss J1) as J2.
+  cbv zeta in R. destruct (fold_left rm_step (creating s1) (s1, dss)) as [s2 dss2]. cbn [fst snd] in R, J2.
+  destruct R as [olds' [Es2 [Eol Hkeep]]]. subst s2.
+  set (s2 := with_mods olds' s1) in *.
+  assert (FL : Forall2 (fun b b' => nrm_L b' = nrm_L b) (map h1 (olds_of s mid)) olds') by (apply Forall2_map_eq; exact Eol).
+  assert (Hko' : keys olds' = keys (olds_of s mid)).
+  { rewrite <- Hko. unfold keys. assert (G : forall l, map mkey l = map mkey (map nrm_L l)) by (intros l; rewrite map_map; reflexivity).
+    rewrite G, Eol, <- G. reflexivity. }
+  (* the pairs *)
+  pose proof (Forall2_with_In _ _ _ (Forall2_conj _ _ _ _ (qi_olds _ _ _ _ Q) F)) as FA.
+  assert (Hlen2 : length (mods s2) = length (mods s)).
+  { unfold s2. cbn [with_mods mods]. rewrite <- (Forall2_length' _ _ _ FL), map_length. symmetry.
+    apply (Forall2_length' _ _ _ (qi_olds _ _ _ _ Q)). }
+  assert (Holds2 : olds_of s s2 = mods s2) by (unfold olds_of; rewrite <- Hlen2; apply firstn_all).
+  assert (Hnew : forall m0, In m0 (mods s) -> ~ In (mkey m0) (creating s1)).
+  { intros m0 H0. unfold s1. cbn [with_mods creating]. rewrite Hcr. rewrite (olds_news s mid) in Hnd.
+    unfold keys in Hnd. rewrite map_app in Hnd. intros Hin. apply (NoDup_app_not_l _ _ _ Hnd Hin).
+    fold (keys (olds_of s mid)). rewrite (keys_olds_Q s imp _ mid Q). apply in_map. exact H0. }
+  set (U := fun m0 m'' : modl => In m0 (mods s) /\ qrel [] (concat dss2) m0 m'' /\ m_feats m'' = m_feats m0 /\
+                                (imp = [] -> m_comp m'' = m_comp m0)).
+  assert (FU : Forall2 U (mods s) (mods s2)).
+  { unfold s2. cbn [with_mods mods].
+    apply (Forall2_compose U U (fun b b' => nrm_L b' = nrm_L b) (mods s) (map h1 (olds_of s mid)) olds'); [|exact FL|].
+    2:{ intros a b c [H0 [Hr [Hf Hc]]] E. split; [exact H0|]. split; [apply (nrm_L_qrel _ _ a b c E Hr)|].
+        pose proof (f_equal m_feats E) as E1. pose proof (f_equal m_comp E) as E2. cbn in E1, E2.
+        split; [rewrite E1; exact Hf|rewrite E2; exact Hc]. }
+    apply (Forall2_map_r_gen _ U h1 _ _ FA). unfold U. cbn.
+    intros m0 m' [H0 [Hr [_ Hf]]]. pose proof (wfs_mods _ W m0 H0) as Wm.
+    destruct Hr as [R1 R2 R3 R4 R5 R6 R7 R8 R9 R10]. unfold h1.
+    destruct (kmem (mkey m') imp) eqn:Ek.
+    - apply kmem_In in Ek. rewrite R1 in Ek. pose proof (R8 Ek) as Hi0.
+      split; [exact H0|]. split; [|split; [exact Hf|]].
+      + constructor; cbn; try assumption; try discriminate.
+        * intros H. congruence.
+        * intros [].
+        * left. symmetry. apply (wf_comp_nimpl _ _ Wm Hi0).
+      + intros _. cbn. symmetry. apply (wf_comp_nimpl _ _ Wm Hi0).
+    - apply kmem_false in Ek. rewrite R1 in Ek.
+      split; [exact H0|]. split; [|split; [exact Hf|]].
+      + constructor; try assumption.
+        * intros H. destruct (R7 H) as [H'|H']; [left; exact H'|contradiction].
+        * intros [].
+        * destruct R10 as [H|[[H1 H2]|H]]; [left; exact H| |contradiction].
+          right. left. split; [exact H1|]. apply Hkeep; [apply Hnew; exact H0|exact H2].
+      + intros Hnl. destruct R10 as [H|[[H1 H2]|H]]; [exact H| |contradiction].
+        rewrite (Hnil Hnl) in H2. destruct H2. }
+  unfold U in FU. clear U.
+  assert (Q2 : QI s [] (concat dss2) s2).
+  { constructor.
+    - apply (qi_expl _ _ _ _ Q).
+    - rewrite Hlen2. apply le_n.
+    - unfold s2. cbn [with_mods mods]. rewrite Hko', (keys_olds_Q s imp _ mid Q). apply (wfs_nodup _ W).
+    - rewrite Holds2. eapply Forall2_impl; [|exact FU]. cbn. tauto. }
+  assert (F2 : FE s s2).
+  { unfold FE. rewrite Holds2. eapply Forall2_impl; [|exact FU]. cbn. intros a b [_ [Hr [Hf _]]].
+    split; [apply (q_key _ _ _ _ Hr)|exact Hf]. }
+  assert (Himp2 : implementing s2 = imp) by exact Himp.
+  rewrite Himp2.
+  destruct imp as [|k0 imp'].
+  - (* nothing was being implemented: nothing is recompiled *)
+    cbn [erase with_implementing with_creating mods].
+    assert (FK : Forall2 (fun m m' => mkey m' = mkey m) (mods s) (mods s2)).
+    { eapply Forall2_impl; [|exact FU]. cbn. intros a b [_ [Hr _]]. apply (q_key _ _ _ _ Hr). }
+    pose proof (LJ_same_keys _ _ FK Js J2) as FLt.
+    eapply Forall2_impl; [|exact (Forall2_conj _ _ _ _ FU FLt)]. cbn. intros a b [[_ [Hr [Hf Hc]]] Hl].
+    destruct Hr as [R1 R2 R3 R4 R5 R6 R7 R8 R9 R10]. constructor; try assumption; [|apply Hc; reflexivity].
+    destruct (m_impl a) eqn:Ea; [apply R6; reflexivity|]. destruct (m_impl b) eqn:Eb; [|reflexivity].
+    destruct (R7 eq_refl) as [H|[]]. discriminate.
+  - (* the previous context is recompiled *)
+    assert (H2 : healthy s2).
+    { intros m'' Hin Htc. destruct (Forall2_In_r _ _ _ _ FU Hin) as [m0 [_ [H0 [Hr [Hf _]]]]].
+      destruct Hr as [R1 R2 R3 R4 R5 R6 R7 R8 R9 R10].
+      rewrite (compiles_ok_ext m0 m'' Hf R3). destruct (R7 (R9 Htc)) as [Hi|[]].
+      apply (wf_comp_impl _ _ (wfs_mods _ W m0 H0) Hi). }
+    assert (Hd2 : forall ds, In ds dss2 -> incl ds (concat dss2)).
+    { intros ds Hin x Hx. apply in_concat. exists ds. tauto. }
+    destruct (compile_all_QI s [] (concat dss2) W dss2 s2 Q2 F2 Hd2) as [Q3 S3].
+    destruct (compile_all_ok s (concat dss2) W dss2 s2 Q2 F2 H2 Hd2) as [_ [_ T3]].
+    set (s3 := fst (compile_all dss2 s2)) in *.
+    assert (Hlen3 : length (mods s3) = length (mods s)).
+    { rewrite <- Hlen2. pose proof (f_equal (@length _) (sb_mods _ _ _ S3)) as E. rewrite !map_length in E. exact E. }
+    assert (Holds3 : olds_of s s3 = mods s3) by (unfold olds_of; rewrite <- Hlen3; apply firstn_all).
+    pose proof (FE_same_but s s2 s3 S3 F2) as F3.
+    assert (J3 : LJs s3).
+    { unfold LJs. eapply LJ_kl; [|exact J2]. apply (same_but_kl no_tc_comp); [intros m; split; reflexivity|exact S3]. }
+    cbn [erase with_implementing with_creating mods].
+    assert (FK : Forall2 (fun m m' => mkey m' = mkey m) (mods s) (mods s3)).
+    { rewrite <- Holds3. eapply Forall2_impl; [|exact (qi_olds _ _ _ _ Q3)]. intros a b Hr. apply (q_key _ _ _ _ Hr). }
+    pose proof (LJ_same_keys _ _ FK Js J3) as FLt.
+    pose proof (Forall2_with_In _ _ _ (Forall2_conj _ _ _ _ (qi_olds _ _ _ _ Q3) F3)) as FB.
+    rewrite Holds3 in FB. pose proof (Forall2_with_In_r _ _ _ (Forall2_conj _ _ _ _ FB FLt)) as FB'.
+    eapply Forall2_impl; [|exact FB']. cbn. intros a b [Hb [[H0 [Hr [_ Hf]]] Hl]].
+    destruct Hr as [R1 R2 R3 R4 R5 R6 R7 R8 R9 R10]. constructor; try assumption.
+    + destruct (m_impl a) eqn:Ea; [apply R6; reflexivity|]. destruct (m_impl b) eqn:Eb; [|reflexivity].
+      destruct (R7 eq_refl) as [H|[]]. discriminate.
+    + destruct R10 as [H|[[H1 H2']|[]]]; [exact H|].
+      assert (Fb : find_mod (mkey b) (mods s3) = Some b)
+        by (apply find_mod_unique; [apply (qi_nodup _ _ _ _ Q3)|exact Hb|reflexivity]).
+      rewrite R1 in Fb. rewrite (T3 (mkey a) b H2' Fb) in H1. discriminate.
+Qed.
+
 (* ------------------------------------------------------------------------------------------------ *)
 (* the main theorem                                                                                 *)
 (* ------------------------------------------------------------------------------------------------ *)
@@ -1961,17 +2492,17 @@ Qed.
 (* implement_and_compile from the end of the parse phase, failing *)
 Lemma iac_restores s t1 k sel mid dss :
   wf_state s -> PI s t1 -> implement_and_compile t1 k sel = (mid, dss, false) ->
-  FE s mid -> LE s mid ->
+  FE s mid -> LJs s -> LJs mid ->
   Forall2 frel (mods s) (mods (erase (revert mid dss))).
 Proof.
-  intros W P E F L.
+  intros W P E F Js Jm.
   pose proof (iac_frame t1 k sel) as Fr. rewrite E in Fr. cbn [fst] in Fr.
   destruct (PI_frame s t1 mid P Fr) as [Hnd [Hko Hcr]].
   rewrite iac_unfold in E.
   destruct (set_implemented_cases t1 k sel) as [| |m fs Fm Hi Hs|m fs Fm Hi Hs]; cbn [negb] in E.
   - (* _lys_set_implemented failed: nothing was touched after the parse phase *)
     inversion E; subst mid dss.
-    apply (revert_restores s [] [] t1 W); [apply PI_QI; assumption|exact F|exact L|apply (pi_impl _ _ P)|exact Hcr|reflexivity].
+    apply (revert_restores s [] [] t1 W); [apply PI_QI; assumption|exact F|exact Js|exact Jm|apply (pi_impl _ _ P)|exact Hcr|reflexivity].
   - (* no change: nothing is marked, the compilation cannot fail *)
     exfalso. destruct (explicit t1); [discriminate E|]. unfold dc in E.
     pose proof (dep_sets_create_none t1 (Some k) (PI_none_tc s t1 W P)) as N2.
@@ -2018,7 +2549,7 @@ Proof.
     destruct (compile_all dss3 t3) as [t4 ok4] eqn:Ec. cbn [fst] in S4. inversion E; subst t4 dss3 ok4.
     assert (F3 : FE s t3) by (apply (FE_same_but s mid t3 (same_but_sym _ _ _ S4) F)).
     pose proof (compile_all_QI s [k] (concat dss) W dss t3 Q3' F3 Hd3) as [Q4 _]. rewrite Ec in Q4. cbn [fst] in Q4.
-    apply (revert_restores s [k] dss mid W Q4 F L); [|exact Hcr|discriminate].
+    apply (revert_restores s [k] dss mid W Q4 F Js Jm); [|exact Hcr|discriminate].
     rewrite (sb_implementing _ _ _ S4), (sb_implementing _ _ _ S3). exact Hi2.
 Qed.
 
@@ -2044,39 +2575,38 @@ Proof.
 Qed.
 
 Theorem failed_restores R s o s' :
-  quiescent s = true -> keeps_latest R s o = true -> keeps_features R s o = true ->
+  LJs s -> quiescent s = true -> keeps_features R s o = true ->
   step R s o = (s', RErr) -> obs s' = obs s.
 Proof.
-  intros Hq Hkl Hkf Hstep.
+  intros Js Hq Hkf Hstep.
   assert (W : wf_state (core s)) by (apply quiescent_wf; exact Hq).
   assert (P0 : PI (core s) (core s)) by (apply PI_refl; [exact W|reflexivity]).
   change (obs s) with (obs (core s)). apply obs_frel.
-  unfold step in Hstep. unfold keeps_latest, keeps_features in *.
+  unfold step in Hstep. unfold keeps_features in *.
+  pose proof (attempt_LJ R (core s) o Js) as Jmid.
   assert (Hmid : step_mid R s o = fst (fst (attempt R (core s) o))) by reflexivity.
-  destruct (attempt R (core s) o) as [[mid dss] r] eqn:Ea. cbn [fst] in Hmid.
+  destruct (attempt R (core s) o) as [[mid dss] r] eqn:Ea. cbn [fst] in Hmid, Jmid.
   destruct (finish_err o mid dss r s' Hstep) as [-> ->].
   (* the frame at the cleanup point gives the two hypotheses positionally *)
   assert (Hgoal : forall t1, PI (core s) t1 -> frame_eq t1 mid ->
-            (FE (core s) mid -> LE (core s) mid -> Forall2 frel (mods (core s)) (mods (erase (revert mid dss)))) ->
+            (FE (core s) mid -> Forall2 frel (mods (core s)) (mods (erase (revert mid dss)))) ->
             Forall2 frel (mods (core s)) (mods (erase (revert mid dss)))).
   { intros t1 P1 Fr K. destruct (PI_frame (core s) t1 mid P1 Fr) as [Hnd [Hko _]]. rewrite <- Hmid in Hnd, Hko.
     apply K; rewrite <- Hmid.
-    - apply (keeps_PE m_feats (fun m m' => feats_eqb (m_feats m') (m_feats m)) R s o);
-        [intros a b H; apply feats_eqb_eq; exact H|exact Hnd|exact Hko|exact Hkf].
-    - apply (keeps_PE m_latest (fun m m' => Bool.eqb (m_latest m') (m_latest m)) R s o);
-        [intros a b H; apply Bool.eqb_prop; exact H|exact Hnd|exact Hko|exact Hkl]. }
+    apply (keeps_PE m_feats (fun m m' => feats_eqb (m_feats m') (m_feats m)) R s o);
+      [intros a b H; apply feats_eqb_eq; exact H|exact Hnd|exact Hko|exact Hkf]. }
   assert (Hfail : forall t1, PI (core s) t1 -> mid = t1 -> dss = [] ->
             Forall2 frel (mods (core s)) (mods (erase (revert mid dss)))).
-  { intros t1 P1 -> ->. apply (Hgoal t1 P1 (frame_eq_refl t1)). intros F L.
+  { intros t1 P1 -> ->. apply (Hgoal t1 P1 (frame_eq_refl t1)). intros F.
     destruct (PI_frame (core s) t1 t1 P1 (frame_eq_refl t1)) as [_ [_ Hcr]].
-    apply (revert_restores (core s) [] [] t1 W); [apply PI_QI; assumption|exact F|exact L|apply (pi_impl _ _ P1)|exact Hcr|reflexivity]. }
+    apply (revert_restores (core s) [] [] t1 W); [apply PI_QI; assumption|exact F|exact Js|exact Jmid|apply (pi_impl _ _ P1)|exact Hcr|reflexivity]. }
   assert (Hiac : forall t1 k sel, PI (core s) t1 ->
             (let '(s2, dss2, ok) := implement_and_compile t1 k sel in (s2, dss2, if ok then ROk else RErr)) = (mid, dss, RErr) ->
             Forall2 frel (mods (core s)) (mods (erase (revert mid dss)))).
   { intros t1 k sel P1 E. destruct (implement_and_compile t1 k sel) as [[s2 dss2] ok] eqn:Ei.
     destruct ok; [discriminate E|]. inversion E; subst s2 dss2.
     pose proof (iac_frame t1 k sel) as Fr. rewrite Ei in Fr. cbn [fst] in Fr.
-    apply (Hgoal t1 P1 Fr). intros F L. apply (iac_restores (core s) t1 k sel mid dss W P1 Ei F L). }
+    apply (Hgoal t1 P1 Fr). intros F. apply (iac_restores (core s) t1 k sel mid dss W P1 Ei F Js Jmid). }
   destruct o as [d sel|name rev sel|name rev sel|]; cbn [attempt] in Ea.
   - pose proof (parse_in_PI (core s) (pfuel R) R (core s) d None P0) as P1.
     destruct (parse_in (pfuel R) R (core s) d None) as [t1 pr]. cbn [fst] in P1.
@@ -2097,6 +2627,7 @@ Proof.
     destruct (compile_all_none dss1 s1 N1) as [Ok _]. destruct (compile_all dss1 s1) as [s2 ok]. cbn [snd] in Ok.
     subst ok. inversion Ea.
 Qed.
+
 
 (* ------------------------------------------------------------------------------------------------ *)
 (* reachability, later operations, change count                                                     *)
@@ -2135,17 +2666,16 @@ Proof. apply feats_eqb_eq. reflexivity. Qed.
 
 (* a syntax error in the module text *)
 Lemma syntax_fault_restores R s d sel s' r :
-  quiescent s = true -> d_fault d = 1 -> step R s (OpParse d sel) = (s', r) -> r = RErr /\ obs s' = obs s.
+  LJs s -> quiescent s = true -> d_fault d = 1 -> step R s (OpParse d sel) = (s', r) -> r = RErr /\ obs s' = obs s.
 Proof.
-  intros Hq Hf Hs.
+  intros Js Hq Hf Hs.
   assert (Hmid : step_mid R s (OpParse d sel) = core s).
   { unfold step_mid, attempt, pfuel. cbn [parse_in]. rewrite Hf. reflexivity. }
   assert (Hr : r = RErr).
   { unfold step, attempt, pfuel in Hs. cbn [parse_in] in Hs. rewrite Hf in Hs. cbn in Hs. inversion Hs. reflexivity. }
   split; [exact Hr|]. subst r. pose proof (wfs_nodup _ (quiescent_wf s Hq)) as Hnd.
-  apply (failed_restores R s (OpParse d sel) s' Hq); [| |exact Hs].
-  - apply keeps_refl_mid; [intros m; apply Bool.eqb_reflx|exact Hnd|rewrite Hmid; reflexivity].
-  - apply keeps_refl_mid; [intros m; apply feats_eqb_refl|exact Hnd|rewrite Hmid; reflexivity].
+  apply (failed_restores R s (OpParse d sel) s' Js Hq); [|exact Hs].
+  apply keeps_refl_mid; [intros m; apply feats_eqb_refl|exact Hnd|rewrite Hmid; reflexivity].
 Qed.
 
 (* lys_set_implemented(m, NULL): implementing without touching the features. Whatever makes it fail (another
@@ -2188,20 +2718,17 @@ Proof.
 Qed.
 
 Lemma failed_implement_restores R s name rev s' :
-  quiescent s = true -> step R s (OpImpl name rev FNull) = (s', RErr) -> obs s' = obs s.
+  LJs s -> quiescent s = true -> step R s (OpImpl name rev FNull) = (s', RErr) -> obs s' = obs s.
 Proof.
-  intros Hq Hs. pose proof (wfs_nodup _ (quiescent_wf s Hq)) as Hnd.
+  intros Js Hq Hs. pose proof (wfs_nodup _ (quiescent_wf s Hq)) as Hnd.
   assert (Hm : map nrm_I (mods (step_mid R s (OpImpl name rev FNull))) = map nrm_I (mods s)).
   { unfold step_mid, attempt. destruct (get_module name rev (mods (core s))) as [m|]; [|reflexivity].
     pose proof (iac_FNull_mods (core s) (mkey m) Hnd) as E.
     destruct (implement_and_compile (core s) (mkey m) FNull) as [[s2 dss] ok]. exact E. }
-  apply (failed_restores R s (OpImpl name rev FNull) s' Hq); [| |exact Hs].
-  - apply (keeps_map_eq nrm_I); [intros m; reflexivity| |exact Hnd|exact Hm].
-    intros m m' E. pose proof (f_equal m_latest E) as E'. change (m_latest m' = m_latest m) in E'.
-    rewrite E'. apply Bool.eqb_reflx.
-  - apply (keeps_map_eq nrm_I); [intros m; reflexivity| |exact Hnd|exact Hm].
-    intros m m' E. pose proof (f_equal m_feats E) as E'. change (m_feats m' = m_feats m) in E'.
-    rewrite E'. apply feats_eqb_refl.
+  apply (failed_restores R s (OpImpl name rev FNull) s' Js Hq); [|exact Hs].
+  apply (keeps_map_eq nrm_I); [intros m; reflexivity| |exact Hnd|exact Hm].
+  intros m m' E. pose proof (f_equal m_feats E) as E'. change (m_feats m' = m_feats m) in E'.
+  rewrite E'. apply feats_eqb_refl.
 Qed.
 
 (* ly_ctx_compile() with nothing pending succeeds (and compiles nothing) *)
@@ -2246,12 +2773,10 @@ Definition fails_in_parse (R : repo) (s : state) (o : op) : bool :=
 Lemma revert_parse_evs s t1 : PI s t1 -> evs (erase (revert t1 [])) = evs t1.
 Proof.
   intros P. unfold revert. rewrite (pi_impl _ _ P). cbn [fold_left].
-  change (fun (a : state * list (list key)) k => (with_mods (rm_mod k (mods (fst a))) (fst a), rm_from_depsets k (snd a)))
-    with rm_step.
-  pose proof (remove_created (olds_of s t1) (creating t1) (news_of s t1) t1 [] (olds_news s t1)) as H.
-  rewrite (pi_creating _ _ P) in *. specialize (H (Permutation_refl _)).
-  rewrite <- (olds_news s t1) in H. specialize (H (pi_nodup _ _ P)). cbv zeta in H.
-  destruct (fold_left rm_step (keys (news_of s t1)) (t1, [])) as [s2 dss2]. cbn [fst] in H. destruct H as [-> _].
+  assert (Hp : Permutation (creating t1) (keys (news_of s t1))) by (rewrite (pi_creating _ _ P); apply Permutation_refl).
+  assert (Hnd : NoDup (keys (olds_of s t1 ++ news_of s t1))) by (rewrite <- (olds_news s t1); apply (pi_nodup _ _ P)).
+  pose proof (remove_created (creating t1) (olds_of s t1) (news_of s t1) t1 [] (olds_news s t1) Hp Hnd) as H. cbv zeta in H.
+  destruct (fold_left rm_step (creating t1) (t1, [])) as [s2 dss2]. cbn [fst] in H. destruct H as [olds' [-> _]].
   cbn [with_mods implementing]. rewrite (pi_impl _ _ P). reflexivity.
 Qed.
 
@@ -2285,21 +2810,23 @@ Definition w_b1_leafref : mdesc := mkDesc 1 1 [(0, 1)] [] 4.
 Definition w_b1 : mdesc := mkDesc 1 1 [] [] 0.
 Definition w_c1_syntax : mdesc := mkDesc 2 1 [] [] 1.
 
-(* 1. failed load of a newer revision: ly_ctx_get_module_latest(a) = NULL afterwards *)
+(* 1. (regression, fixed by /repo commit 21681e3) failed load of a newer revision: ly_ctx_get_module_latest(a) was NULL
+   afterwards; now a@1 is the latest revision again *)
 Definition w1_R : repo := [w_a1; w_a2_imp_h].
 Definition w1_s : state := run w1_R (init false) [OpParse w_a1 FNull].
 Definition w1_o : op := OpParse w_a2_imp_h FNull.
 Lemma w1_facts :
-  quiescent w1_s = true /\ keeps_features w1_R w1_s w1_o = true /\ keeps_latest w1_R w1_s w1_o = false /\
-  snd (step w1_R w1_s w1_o) = RErr /\ obs (fst (step w1_R w1_s w1_o)) <> obs w1_s.
-Proof. vm_compute. repeat split; discriminate. Qed.
+  quiescent w1_s = true /\ keeps_features w1_R w1_s w1_o = true /\
+  snd (step w1_R w1_s w1_o) = RErr /\ obs (fst (step w1_R w1_s w1_o)) = obs w1_s /\
+  option_map m_latest (find_mod (0, 1) (mods (step_mid w1_R w1_s w1_o))) = Some false.
+Proof. vm_compute. repeat split. Qed.
 
 (* 2. lys_set_implemented(a, {f2}) on the implemented a: f1 off, f2 on, to_compile left *)
 Definition w2_R : repo := [w_af1; w_b1_imp_a].
 Definition w2_s : state := run w2_R (init false) [OpParse w_af1 (FList [1])].
 Definition w2_o : op := OpImpl 0 1 (FList [2]).
 Lemma w2_facts :
-  quiescent w2_s = true /\ keeps_latest w2_R w2_s w2_o = true /\ keeps_features w2_R w2_s w2_o = false /\
+  quiescent w2_s = true /\ keeps_features w2_R w2_s w2_o = false /\
   snd (step w2_R w2_s w2_o) = RErr /\ obs (fst (step w2_R w2_s w2_o)) <> obs w2_s /\
   (* and a later correct load fails *)
   snd (step w2_R (fst (step w2_R w2_s w2_o)) (OpParse w_b1_imp_a FNull)) = RErr /\
@@ -2309,7 +2836,7 @@ Proof. vm_compute. repeat split; discriminate. Qed.
 (* 3. the same on a module that is only imported: b is recompiled against the features that stay *)
 Definition w3_s : state := run w2_R (init false) [OpParse w_b1_imp_a FNull].
 Lemma w3_facts :
-  quiescent w3_s = true /\ keeps_latest w2_R w3_s w2_o = true /\ keeps_features w2_R w3_s w2_o = false /\
+  quiescent w3_s = true /\ keeps_features w2_R w3_s w2_o = false /\
   snd (step w2_R w3_s w2_o) = RErr /\ obs (fst (step w2_R w3_s w2_o)) <> obs w3_s.
 Proof. vm_compute. repeat split; discriminate. Qed.
 
@@ -2318,7 +2845,7 @@ Definition w4_R : repo := [w_a1; w_b1; w_c1_syntax].
 Definition w4_s : state := run w4_R (init true) [OpParse w_a1 FNull; OpCompile; OpParse w_b1 FNull].
 Definition w4_o : op := OpParse w_c1_syntax FNull.
 Lemma w4_facts :
-  quiescent w4_s = false /\ keeps_latest w4_R w4_s w4_o = true /\ keeps_features w4_R w4_s w4_o = true /\
+  quiescent w4_s = false /\ keeps_features w4_R w4_s w4_o = true /\
   snd (step w4_R w4_s w4_o) = RErr /\ obs (fst (step w4_R w4_s w4_o)) <> obs w4_s.
 Proof. vm_compute. repeat split; discriminate. Qed.
 
@@ -2367,7 +2894,7 @@ Definition w7_ops : list op :=
     OpParse w_af1 (FList [9]) ].
 Lemma w7_facts :
   quiescent w7_s = true /\
-  forallb (fun o => keeps_latest w7_R w7_s o && keeps_features w7_R w7_s o &&
+  forallb (fun o => keeps_features w7_R w7_s o &&
                     match snd (step w7_R w7_s o) with RErr => true | _ => false end) w7_ops = true.
 Proof. vm_compute. split; reflexivity. Qed.
 
@@ -2376,41 +2903,68 @@ Proof. vm_compute. split; reflexivity. Qed.
 (* ------------------------------------------------------------------------------------------------ *)
 Lemma full_statement_refuted : ~ (forall R s o s', reachable R s -> step R s o = (s', RErr) -> obs s' = obs s).
 Proof.
-  intros H. destruct w1_facts as [_ [_ [_ [Hr Ho]]]]. apply Ho.
-  apply (H w1_R w1_s w1_o (fst (step w1_R w1_s w1_o)) (reachable_run _ _ _)).
-  rewrite <- Hr. destruct (step w1_R w1_s w1_o); reflexivity.
+  intros H. destruct w2_facts as [_ [_ [Hr [Ho _]]]]. apply Ho.
+  apply (H w2_R w2_s w2_o (fst (step w2_R w2_s w2_o)) (reachable_run _ _ _)).
+  rewrite <- Hr. destruct (step w2_R w2_s w2_o); reflexivity.
 Qed.
+
+Lemma failed_restores_reachable R s o s' :
+  reachable R s -> quiescent s = true -> keeps_features R s o = true -> step R s o = (s', RErr) -> obs s' = obs s.
+Proof. intros Hr. apply failed_restores. apply (reachable_LJ R s Hr). Qed.
+
 Lemma side_conditions_necessary :
-  (exists R s o, reachable R s /\ quiescent s = true /\ keeps_features R s o = true /\ keeps_latest R s o = false /\
-                 snd (step R s o) = RErr /\ obs (fst (step R s o)) <> obs s) /\
-  (exists R s o, reachable R s /\ quiescent s = true /\ keeps_latest R s o = true /\ keeps_features R s o = false /\
+  (exists R s o, reachable R s /\ quiescent s = true /\ keeps_features R s o = false /\
                  snd (step R s o) = RErr /\ obs (fst (step R s o)) <> obs s /\
                  exists o2, snd (step R (fst (step R s o)) o2) = RErr /\ snd (step R s o2) = ROk) /\
-  (exists R s o, reachable R s /\ quiescent s = true /\ keeps_latest R s o = true /\ keeps_features R s o = false /\
+  (exists R s o, reachable R s /\ quiescent s = true /\ keeps_features R s o = false /\
                  snd (step R s o) = RErr /\ obs (fst (step R s o)) <> obs s /\
                  option_map m_impl (find_mod (0, 1) (mods s)) = Some false) /\
-  (exists R s o, reachable R s /\ quiescent s = false /\ keeps_latest R s o = true /\ keeps_features R s o = true /\
+  (exists R s o, reachable R s /\ quiescent s = false /\ keeps_features R s o = true /\
                  snd (step R s o) = RErr /\ obs (fst (step R s o)) <> obs s).
 Proof.
-  split; [|split; [|split]].
-  - exists w1_R, w1_s, w1_o. split; [apply reachable_run|exact w1_facts].
-  - exists w2_R, w2_s, w2_o. split; [apply reachable_run|]. destruct w2_facts as [A [B [C [D [E [F G]]]]]].
-    exact (conj A (conj B (conj C (conj D (conj E (ex_intro _ (OpParse w_b1_imp_a FNull) (conj F G))))))).
-  - exists w2_R, w3_s, w2_o. split; [apply reachable_run|]. destruct w3_facts as [A [B [C [D E]]]].
-    refine (conj A (conj B (conj C (conj D (conj E _))))). vm_compute. reflexivity.
+  split; [|split].
+  - exists w2_R, w2_s, w2_o. split; [apply reachable_run|]. destruct w2_facts as [A [C [D [E [F G]]]]].
+    exact (conj A (conj C (conj D (conj E (ex_intro _ (OpParse w_b1_imp_a FNull) (conj F G)))))).
+  - exists w2_R, w3_s, w2_o. split; [apply reachable_run|]. destruct w3_facts as [A [C [D E]]].
+    refine (conj A (conj C (conj D (conj E _)))). vm_compute. reflexivity.
   - exists w4_R, w4_s, w4_o. split; [apply reachable_run|exact w4_facts].
 Qed.
+
 Lemma hypotheses_satisfiable :
   reachable w7_R w7_s /\ quiescent w7_s = true /\
-  forallb (fun o => keeps_latest w7_R w7_s o && keeps_features w7_R w7_s o &&
+  forallb (fun o => keeps_features w7_R w7_s o &&
                     match snd (step w7_R w7_s o) with RErr => true | _ => false end) w7_ops = true.
 Proof. split; [apply reachable_run|exact w7_facts]. Qed.
+
+(* regression of the fixed defect: the failed load of a@2 takes the flag from a@1 (it is off at the cleanup jump) and
+   the revert gives it back *)
+Lemma latest_flag_given_back :
+  reachable w1_R w1_s /\ snd (step w1_R w1_s w1_o) = RErr /\
+  option_map m_latest (find_mod (0, 1) (mods (step_mid w1_R w1_s w1_o))) = Some false /\
+  obs (fst (step w1_R w1_s w1_o)) = obs w1_s.
+Proof.
+  split; [apply reachable_run|]. destruct w1_facts as [_ [_ [A [B C]]]]. exact (conj A (conj C B)).
+Qed.
+
+Lemma syntax_fault_restores_reachable R s d sel s' r :
+  reachable R s -> quiescent s = true -> d_fault d = 1 -> step R s (OpParse d sel) = (s', r) -> r = RErr /\ obs s' = obs s.
+Proof. intros Hr. apply syntax_fault_restores. apply (reachable_LJ R s Hr). Qed.
+
+Lemma failed_implement_restores_reachable R s name rev s' :
+  reachable R s -> quiescent s = true -> step R s (OpImpl name rev FNull) = (s', RErr) -> obs s' = obs s.
+Proof. intros Hr. apply failed_implement_restores. apply (reachable_LJ R s Hr). Qed.
+
+Lemma later_load_unaffected : forall R s s' o2,
+  core s' = core s -> step R s' o2 = step R s o2.
+Proof. intros R s s' o2 H. apply step_core. exact H. Qed.
+
 Lemma later_load_affected :
   exists R s o later, reachable R s /\ quiescent s = true /\ snd (step R s o) = RErr /\
     obs (fst (step R s o)) = obs s /\ obs (run R (fst (step R s o)) later) <> obs (run R s later).
 Proof.
   exists w5_R, w5_s, w5_o, w5_later. split; [apply reachable_run|]. exact w5_facts.
 Qed.
+
 Lemma data_trees_refuted :
   exists R s o k, reachable R s /\ quiescent s = true /\ snd (step R s o) = RErr /\ obs (fst (step R s o)) = obs s /\
     option_map m_impl (find_mod k (mods s)) = Some true /\ In k (compiled_in (fst (step R s o))).
@@ -2418,6 +2972,3 @@ Proof.
   exists w6_R, w6_s, w6_o, (0, 1). split; [apply reachable_run|]. destruct w6_facts as [A [B [C [D E]]]].
   exact (conj A (conj B (conj C (conj E D)))).
 Qed.
-Lemma later_load_unaffected : forall R s s' o2,
-  core s' = core s -> step R s' o2 = step R s o2.
-Proof. intros R s s' o2 H. apply step_core. exact H. Qed.
